@@ -73,6 +73,30 @@ Fixpoint execute_req (before : bool) (k : reqkind) : res exec_effect :=
 Definition unprepared_then_prepare_answered (before : bool) (k : reqkind) : res exec_effect :=
   execute_req before k.
 
+(** ** the places where the proxy terminates itself on purpose: every call of the builtin [panic]
+    in the production files is listed by the translator ([Gen.Tables.explicit_panic_sites],
+    regenerated on every run); each listed site has been examined and is not reachable with
+    input a peer controls.  A site that is not in this list -- a new panic, or one of the two
+    repaired ones coming back -- fails [Props/C17.v] and the hostile harness then looks for the
+    input that reaches it. *)
+Definition audited_panic_sites : list bytes :=
+  [ (* message.Message.DeepCopyMessage of the partial messages: only frame.DeepCopy calls it, which the proxy never does *)
+    str "codecs.PartialBatch.DeepCopyMessage"; str "codecs.PartialExecute.DeepCopyMessage"; str "codecs.PartialQuery.DeepCopyMessage";
+    (* kong.New over the static configuration struct, at start-up, before any socket is open *)
+    str "proxy.Run";
+    (* the local address of an accepted TCP connection is a *net.TCPAddr *)
+    str "proxy.client.localIP";
+    (* marker methods of the event types, never called *)
+    str "proxycore.AddEvent.isEvent"; str "proxycore.BootstrapEvent.isEvent"; str "proxycore.ReconnectEvent.isEvent";
+    str "proxycore.RemoveEvent.isEvent"; str "proxycore.SchemaChangeEvent.isEvent"; str "proxycore.UpEvent.isEvent";
+    (* an internal request is registered once and is removed from the pending table before it is completed: its
+       one-slot channels are written at most once (OnResult after loadAndDelete, OnClose from Closing or from the
+       re-PREPARE standing in for it, Execute only after it was taken out by Receive) *)
+    str "proxycore.internalRequest.OnClose"; str "proxycore.internalRequest.OnResult" ].
+
+Definition unaudited_panic_sites : list bytes :=
+  filter (fun s => negb (existsb (bytes_eqb s) audited_panic_sites)) explicit_panic_sites.
+
 (** ** correspondence entry: the harness reports (process alive, persistent canary served, fresh
     canary served, offending connection answered or closed); all four must be true *)
 Definition run_c17 (input : val) : val := L [I 1; I 1; I 1; I 1].
